@@ -88,14 +88,25 @@ def run(prog, rep, tier, repo):
         n = ('arg', 2, f.names.get(2))
         pushes = [c for c in f.calls() if c.path and short(c.path) == 'push']
         ok = False
+        recognised = False
         if len(pushes) == 1:
             v = pushes[0].args[1]
             loops = sorted([li for li in f.loop_info() if pushes[0].bb in li['blocks'] and li['item'] is not None], key=lambda li: -len(li['blocks']))
             if len(loops) == 2 and tag(v) == 'call' and v[1].endswith('::powi'):
+                recognised = True       # push of a power inside a two-level counting nest: base / exponent / range are decided
                 outer, inner = loops
                 ok = v[2][0] == outer['item'] and strip_casts(v[2][1]) == inner['item'] and inner['iter'] == ('range', ('const', 'usize', 0), n)
-        (rep.ok if ok else rep.viol)('vandermonde-order', key, 'row per abscissa, column c = x^c for c in 0..n (ascending powers)' if ok else 'vandermonde is not x[r]^c with c ascending from 0', site_of(f.body))
+        if ok:
+            rep.ok('vandermonde-order', key, 'row per abscissa, column c = x^c for c in 0..n (ascending powers)')
+        elif recognised:
+            rep.viol('vandermonde-order', key, 'vandermonde is not x[r]^c with c ascending from 0', site_of(f.body))
+        else:
+            rep.undecided('vandermonde-order', key, 'construction idiom not read (no single push of a power in a two-level counting nest)', site_of(f.body), proof=False)
     rep.floor('vandermonde-order', 1, 'vandermonde')
+    # which entries of the design matrix are written must not depend on the abscissae (e.g. skipping rows with x == 0 leaves the x^0 column 0)
+    from . import c15
+    c15.d8_oblivious(prog, rep, only=['linalg::utils::vandermonde'], rule='design-oblivious')
+    rep.floor('design-oblivious', 1, 'vandermonde')
 
     # ---- D3 Horner
     f = prog.func(P + '::predict')
